@@ -2,19 +2,23 @@
 //
 // Subjects: x86::InstInternal::inst_id_to_string / string_to_inst_id, a64::InstInternal::inst_id_to_string / string_to_inst_id,
 // InstNameUtils::decode / find_instruction / find_alias (core/instdb.cpp) over the real name tables of x86instdb.cpp / a64instdb.cpp.
-// The instruction id (the alias index) is a symbolic variable; the solver decides the round trip for every value of it.
+// The instruction id (the alias index) is a symbolic variable; the solver decides the round trip for every value of it. Nothing about
+// the contents of the tables is written down here except two facts from the Intel SDM used as an oracle for aliases (see below).
 //
-// How the id range is cut into queries (no id is enumerated, nothing about the tables is written down here):
-//   h_names_<arch>_cover : id over [1, _kIdCount). The name is non-empty, at most max_name_length long, made of [a-z0-9_], starts with
-//                          a letter, and the id lies inside the span `_inst_name_index.data[letter]` - the only part of the table
-//                          find_instruction() looks at for a name starting with that letter.
-//   h_names_<arch>_<l>   : id over the span of letter <l> (or the k-th of n equal parts of it), restricted to the ids whose name starts
-//                          with <l> (on AArch64 the span of a letter runs from its general-purpose block into its SIMD block and so
-//                          contains ids of other letters; those belong to the harness of their own letter). The first character of
-//                          the text handed to string_to_inst_id() is then the constant <l>, so the span looked up and the bounds of
-//                          the binary search are constants for the solver; the position probed in every step stays symbolic.
-//   cover + all letters  = every id in [1, _kIdCount).
-//   h_names_x86_alias    : alias index over [0, kAliasTableSize).
+//   h_names_x86_all      : id over [1, x86::Inst::_kIdCount), one query: string_to_inst_id(inst_id_to_string(id)) == id.
+//   h_names_<arch>_cover : id over [1, _kIdCount): the name is non-empty, at most max_name_length long, made of [a-z0-9_], starts with a
+//                          letter, and the id lies inside the span `_inst_name_index.data[letter]` - the only part of the table that
+//                          string_to_inst_id() looks at for a name starting with that letter.
+//   h_names_a64_<l>      : AArch64, id over the span of letter <l>, restricted to the ids whose name starts with <l> (the span of a
+//                          letter runs from its general-purpose block into its SIMD block and so contains ids of other letters; those
+//                          belong to the harness of their own letter). The first character of the text handed to string_to_inst_id()
+//                          is then the constant <l>: the span, the bounds of both binary searches and the ids visited by the linear
+//                          scan that a64 string_to_inst_id() falls back to are constants for the solver (the scan over a symbolic span
+//                          is out of reach: 450 iterations, each decoding a symbolic table entry); the probe position of every search
+//                          step and the name looked up stay symbolic.  h_names_a64_cover + all letters = every id in [1, _kIdCount).
+//   h_names_x86_alias    : alias index over [0, kAliasTableSize): the alias text maps to the id the alias table gives.
+//   h_names_x86_alias_names : alias index over the same range: that id carries the alias as one of its names.
+//   h_names_x86_alias_miss  : a text that is no name maps to kIdNone.
 #include <asmjit/core.h>
 #include <asmjit/x86.h>
 #include <asmjit/a64.h>
@@ -45,13 +49,15 @@ inline void ext_string(String& sb, char* store) {
 #define NOINLINE __attribute__((noinline))
 struct X86 {
   static constexpr uint32_t kCount = x86::Inst::_kIdCount;
+  static constexpr bool kUniqueNames = true;                      // any other id than the one that was printed is a violation
   static inline const InstNameIndex& index() { return x86::InstDB::_inst_name_index; }
   static NOINLINE Error to_string(InstId id, InstStringifyOptions o, String& s) { return x86::InstInternal::inst_id_to_string(id, o, s); }
   static NOINLINE InstId to_id(const char* s, size_t n) { return x86::InstInternal::string_to_inst_id(s, n); }
-  static inline bool same_class(InstId, InstId) { return true; }   // x86 names are unique: any other id is a violation
+  static inline bool same_class(InstId, InstId) { return true; }
 };
 struct A64 {
   static constexpr uint32_t kCount = a64::Inst::_kIdCount;
+  static constexpr bool kUniqueNames = false;
   static inline const InstNameIndex& index() { return a64::InstDB::_inst_name_index; }
   static NOINLINE Error to_string(InstId id, InstStringifyOptions o, String& s) { return a64::InstInternal::inst_id_to_string(id, o, s); }
   static NOINLINE InstId to_id(const char* s, size_t n) { return a64::InstInternal::string_to_inst_id(s, n); }
@@ -82,7 +88,7 @@ template<class A> inline void cover() {
   no_heap::active = false;
   V_ASSERT(e == Error::kOk && no_heap::n_calls == 0, "the name of a defined id is produced without allocation");
   size_t n = a.size();
-  V_ASSERT(a.data() == txt_a && n >= 1 && n <= ix.max_name_length, "the name is non-empty and at most max_name_length long");
+  V_ASSERT(a.data() == txt_a && n >= 1 && n <= ix.max_name_length && n <= kMax, "the name is non-empty and at most max_name_length long");
   if (n > kMax) return;
   bool ok = true;
   for (size_t i = 0; i < kMax && i < n; i++) ok &= name_char(txt_a[i]);
@@ -91,17 +97,16 @@ template<class A> inline void cover() {
   V_ASSERT(l < 26, "the name starts with a letter");
   if (l >= 26) return;
   V_ASSERT(ix.data[l].start != 0 && ix.data[l].start <= id && id < ix.data[l].end, "the id lies inside the name index span of its first letter");
-  observe_text<kMax>(txt_a, n);
+  verif_observe(id); observe_text<kMax>(txt_a, n);
   V_WITNESS("name of an id checked");
 }
 
-// ---- ids whose name starts with letter 'a' + L, part PART of NPARTS of the letter's span ------------------------------------------
-template<class A, uint32_t L, uint32_t PART, uint32_t NPARTS> inline void letter() {
-  static_assert(L <= 26 && PART < NPARTS, "letter / part");
+// ---- round trip. L < 26: the ids of the span of letter 'a' + L whose name starts with that letter; L == 26: every id ---------------
+template<class A, uint32_t L> inline void round_trip() {
+  static_assert(L <= 26, "letter");
   const InstNameIndex& ix = A::index();
-  uint32_t start = L < 26 ? uint32_t(ix.data[L < 26 ? L : 0].start) : 1u, end = L < 26 ? uint32_t(ix.data[L < 26 ? L : 0].end) : A::kCount;
-  uint32_t lo = start + (end - start) * PART / NPARTS, hi = start + (end - start) * (PART + 1u) / NPARTS;
-  if (start == 0 || lo >= hi || hi > A::kCount) return;      // no id to check: the harness is then vacuous and reported as such
+  uint32_t lo = L < 26 ? uint32_t(ix.data[L < 26 ? L : 0].start) : 1u, hi = L < 26 ? uint32_t(ix.data[L < 26 ? L : 0].end) : A::kCount;
+  if (lo == 0 || lo >= hi || hi > A::kCount) return;      // no id to check: the harness is then vacuous and reported as such
   uint32_t id = lo + uint32_t(nondet_u16()) % (hi - lo);
 
   String a; ext_string(a, txt_a);
@@ -119,11 +124,14 @@ template<class A, uint32_t L, uint32_t PART, uint32_t NPARTS> inline void letter
   V_ASSERT(id2 != BaseInst::kIdNone, "the name of an instruction maps back to an instruction id");
   V_ASSERT(id2 == id || !A::same_class(id2, id), "the name maps back to the same id unless a general-purpose and a SIMD id share it");
   if (id2 == BaseInst::kIdNone) return;
-  String b; ext_string(b, txt_b);
-  Error e2 = A::to_string(id2, InstStringifyOptions::kNone, b);
+  if (!A::kUniqueNames) {
+    String b; ext_string(b, txt_b);
+    Error e2 = A::to_string(id2, InstStringifyOptions::kNone, b);
+    V_ASSERT(e2 == Error::kOk && b.data() == txt_b, "the id found has a name");
+    V_ASSERT(same_text<kMax>(txt_a, n, txt_b, b.size()), "the id found carries the name that was looked up");
+  }
   no_heap::active = false;
-  V_ASSERT(e2 == Error::kOk && b.data() == txt_b && no_heap::n_calls == 0, "the id found has a name and nothing was allocated");
-  V_ASSERT(same_text<kMax>(txt_a, n, txt_b, b.size()), "the id found carries the name that was looked up");
+  V_ASSERT(no_heap::n_calls == 0, "nothing was allocated");
   verif_observe(id); verif_observe(id2); observe_text<kMax>(txt_a, n);
   V_WITNESS("name round trip done");
 }
@@ -154,59 +162,64 @@ template<size_t N> inline bool text_is(const char* p, size_t n, const char (&lit
   return eq;
 }
 
+// the text of alias `ai` in txt_a; returns its length (0: the harness stops, an assertion has failed)
+inline size_t alias_text(uint32_t ai) {
+  String a; ext_string(a, txt_a);
+  Error e = InstNameUtils::decode(x86::InstDB::alias_name_index_table[ai], InstStringifyOptions::kNone, x86::InstDB::alias_name_string_table, a);
+  size_t n = a.size();
+  V_ASSERT(e == Error::kOk && a.data() == txt_a && n >= 1 && n <= x86::InstDB::_inst_name_index.max_name_length && n <= kMax, "the alias-name is non-empty and at most max_name_length long");
+  return (e == Error::kOk && n <= kMax) ? n : 0;
+}
+
 } // namespace
 
 HARNESS h_names_x86_cover() { cover<X86>(); }
 HARNESS h_names_a64_cover() { cover<A64>(); }
 
-#define NAMES(arch, A, l, L, k, K, N) HARNESS h_names_##arch##_##l##k() { letter<A, L, K, N>(); }
-// x86: every letter that has instructions; 'v' (826 ids) in 4 parts, 'p' (178) in 2
-NAMES(x86, X86, a,  0, , 0, 1) NAMES(x86, X86, b,  1, , 0, 1) NAMES(x86, X86, c,  2, , 0, 1) NAMES(x86, X86, d,  3, , 0, 1)
-NAMES(x86, X86, e,  4, , 0, 1) NAMES(x86, X86, f,  5, , 0, 1) NAMES(x86, X86, g,  6, , 0, 1) NAMES(x86, X86, h,  7, , 0, 1)
-NAMES(x86, X86, i,  8, , 0, 1) NAMES(x86, X86, j,  9, , 0, 1) NAMES(x86, X86, k, 10, , 0, 1) NAMES(x86, X86, l, 11, , 0, 1)
-NAMES(x86, X86, m, 12, , 0, 1) NAMES(x86, X86, n, 13, , 0, 1) NAMES(x86, X86, o, 14, , 0, 1)
-NAMES(x86, X86, p, 15, _0, 0, 2) NAMES(x86, X86, p, 15, _1, 1, 2)
-NAMES(x86, X86, r, 17, , 0, 1) NAMES(x86, X86, s, 18, , 0, 1) NAMES(x86, X86, t, 19, , 0, 1) NAMES(x86, X86, u, 20, , 0, 1)
-NAMES(x86, X86, v, 21, _0, 0, 4) NAMES(x86, X86, v, 21, _1, 1, 4) NAMES(x86, X86, v, 21, _2, 2, 4) NAMES(x86, X86, v, 21, _3, 3, 4)
-NAMES(x86, X86, w, 22, , 0, 1) NAMES(x86, X86, x, 23, , 0, 1)
-HARNESS h_names_x86_all() { letter<X86, 26, 0, 1>(); }
-// AArch64: every letter that has instructions
-NAMES(a64, A64, a,  0, , 0, 1) NAMES(a64, A64, b,  1, , 0, 1) NAMES(a64, A64, c,  2, , 0, 1) NAMES(a64, A64, d,  3, , 0, 1)
-NAMES(a64, A64, e,  4, , 0, 1) NAMES(a64, A64, f,  5, , 0, 1) NAMES(a64, A64, g,  6, , 0, 1) NAMES(a64, A64, h,  7, , 0, 1)
-NAMES(a64, A64, i,  8, , 0, 1) NAMES(a64, A64, l, 11, , 0, 1) NAMES(a64, A64, m, 12, , 0, 1) NAMES(a64, A64, n, 13, , 0, 1)
-NAMES(a64, A64, o, 14, , 0, 1) NAMES(a64, A64, p, 15, , 0, 1) NAMES(a64, A64, r, 17, , 0, 1) NAMES(a64, A64, s, 18, , 0, 1)
-NAMES(a64, A64, t, 19, , 0, 1) NAMES(a64, A64, u, 20, , 0, 1) NAMES(a64, A64, w, 22, , 0, 1) NAMES(a64, A64, x, 23, , 0, 1)
-NAMES(a64, A64, y, 24, , 0, 1) NAMES(a64, A64, z, 25, , 0, 1)
+HARNESS h_names_x86_all() { round_trip<X86, 26>(); }
 
-// Letters without a harness above must have no instruction: otherwise the union of the letter harnesses would not be every id.
-HARNESS h_names_letters() {
-  const InstNameIndex& x = x86::InstDB::_inst_name_index; const InstNameIndex& a = a64::InstDB::_inst_name_index;
-  V_ASSERT(x.data[16].start == 0 && x.data[24].start == 0 && x.data[25].start == 0, "x86: no instruction name starts with q y z");
+// AArch64: one harness per letter that has instructions
+#define NAMES_A64(l, L) HARNESS h_names_a64_##l() { round_trip<A64, L>(); }
+NAMES_A64(a,  0) NAMES_A64(b,  1) NAMES_A64(c,  2) NAMES_A64(d,  3) NAMES_A64(e,  4) NAMES_A64(f,  5) NAMES_A64(g,  6) NAMES_A64(h,  7)
+NAMES_A64(i,  8) NAMES_A64(l, 11) NAMES_A64(m, 12) NAMES_A64(n, 13) NAMES_A64(o, 14) NAMES_A64(p, 15) NAMES_A64(r, 17) NAMES_A64(s, 18)
+NAMES_A64(t, 19) NAMES_A64(u, 20) NAMES_A64(w, 22) NAMES_A64(x, 23) NAMES_A64(y, 24) NAMES_A64(z, 25)
+
+// AArch64 letters without a harness above must have no instruction: otherwise the union of the letter harnesses would not be every id.
+HARNESS h_names_a64_letters() {
+  const InstNameIndex& a = a64::InstDB::_inst_name_index;
   V_ASSERT(a.data[9].start == 0 && a.data[10].start == 0 && a.data[16].start == 0 && a.data[21].start == 0, "a64: no instruction name starts with j k q v");
-  V_ASSERT(x.max_name_length <= kMax && a.max_name_length <= kMax, "max_name_length is within the text bound of these harnesses");
-  verif_observe(x.max_name_length); verif_observe(a.max_name_length);
+  V_ASSERT(a.max_name_length <= kMax, "a64: max_name_length is within the text bound of these harnesses");
+  verif_observe(a.max_name_length);
   V_WITNESS("letters without instructions checked");
 }
 
 HARNESS h_names_x86_alias() {
   uint32_t ai = uint32_t(nondet_u8()) % x86::InstDB::kAliasTableSize;
-  String a; ext_string(a, txt_a);
   no_heap::active = true;
-  Error e = InstNameUtils::decode(x86::InstDB::alias_name_index_table[ai], InstStringifyOptions::kNone, x86::InstDB::alias_name_string_table, a);
-  size_t n = a.size();
-  V_ASSERT(e == Error::kOk && a.data() == txt_a && n >= 1 && n <= x86::InstDB::_inst_name_index.max_name_length, "the alias-name is non-empty and at most max_name_length long");
-  if (e != Error::kOk || n < 1 || n > kMax) return;
+  size_t n = alias_text(ai);
+  if (n == 0) return;
   bool chars_ok = true;
   for (size_t i = 0; i < kMax && i < n; i++) chars_ok &= name_char(txt_a[i]);
   V_ASSERT(chars_ok && txt_a[0] >= 'a' && txt_a[0] <= 'z', "the alias-name consists of characters a-z 0-9 _ and starts with a letter");
 
   InstId id = X86::to_id(txt_a, n);
+  no_heap::active = false;
   V_ASSERT(id == x86::InstDB::alias_index_to_inst_id_table[ai], "the alias-name maps to the id its table entry gives");
-  V_ASSERT(id != BaseInst::kIdNone && id < x86::Inst::_kIdCount, "the alias-name maps to a defined instruction id");
-  if (id == BaseInst::kIdNone || id >= x86::Inst::_kIdCount) return;
+  V_ASSERT(id != BaseInst::kIdNone && id < x86::Inst::_kIdCount && no_heap::n_calls == 0, "the alias-name maps to a defined instruction id");
+  verif_observe(ai); verif_observe(id); observe_text<kMax>(txt_a, n);
+  V_WITNESS("alias round trip done");
+}
 
-  // the id carries the alias as one of its names: the kAliases rendering of the id lists it; the two aliases asmjit renders without a
-  // list are checked against the Intel SDM (SAL and SHL are one instruction; WAIT and FWAIT are one instruction)
+// The id the alias table gives carries the alias as one of its names: the kAliases rendering of the id lists it. The two aliases that
+// asmjit renders without a list are checked against the Intel SDM (SAL and SHL are one instruction; WAIT and FWAIT are one instruction).
+HARNESS h_names_x86_alias_names() {
+  uint32_t ai = uint32_t(nondet_u8()) % x86::InstDB::kAliasTableSize;
+  no_heap::active = true;
+  size_t n = alias_text(ai);
+  if (n == 0) return;
+  InstId id = x86::InstDB::alias_index_to_inst_id_table[ai];
+  V_ASSERT(id != BaseInst::kIdNone && id < x86::Inst::_kIdCount, "the alias-name table gives a defined instruction id");
+  if (id == BaseInst::kIdNone || id >= x86::Inst::_kIdCount) return;
   String p; ext_string(p, txt_b);
   String f; ext_string(f, txt_c);
   Error e1 = X86::to_string(id, InstStringifyOptions::kNone, p);
@@ -223,24 +236,22 @@ HARNESS h_names_x86_alias() {
   V_ASSERT(plain ? manual : listed, "the id an alias-name maps to carries it as one of its names");
   V_ASSERT(!same_text<kMax>(txt_a, n, txt_b, pn), "an alias-name differs from the primary name");
   verif_observe(ai); verif_observe(id); observe_text<kMax>(txt_a, n); observe_text<kMax>(txt_c, fn);
-  V_WITNESS("alias round trip done");
+  V_WITNESS("alias names checked");
 }
 
 // A text that is no instruction and no alias maps to kIdNone: one character of an alias replaced by a character no name contains.
 HARNESS h_names_x86_alias_miss() {
   uint32_t ai = uint32_t(nondet_u8()) % x86::InstDB::kAliasTableSize;
-  String a; ext_string(a, txt_a);
   no_heap::active = true;
-  Error e = InstNameUtils::decode(x86::InstDB::alias_name_index_table[ai], InstStringifyOptions::kNone, x86::InstDB::alias_name_string_table, a);
-  no_heap::active = false;
-  size_t n = a.size();
-  if (e != Error::kOk || n < 1 || n > kMax) return;
+  size_t n = alias_text(ai);
+  if (n == 0) return;
   size_t k = nondet_u8() & 31;
   if (k >= n) return;
   static const char other[4] = { '.', '|', '~', 'A' };   // outside a-z 0-9 _ (h_names_x86_cover, h_names_x86_alias: no name and no alias contains them)
   txt_a[k] = other[nondet_u8() & 3];
   InstId id = X86::to_id(txt_a, n);
-  V_ASSERT(id == BaseInst::kIdNone, "a text that is neither an instruction name nor an alias-name maps to no id");
+  no_heap::active = false;
+  V_ASSERT(id == BaseInst::kIdNone && no_heap::n_calls == 0, "a text that is neither an instruction name nor an alias-name maps to no id");
   verif_observe(ai); verif_observe(k); observe_text<kMax>(txt_a, n);
   V_WITNESS("near miss of an alias-name looked up");
 }
